@@ -151,13 +151,14 @@ func Assert(c bool, msg string) {
 	}
 }
 
-func Fail(msg string)  { Failures = append(Failures, "failure: "+msg) }
+func Fail(msg string) { Failures = append(Failures, "failure: "+msg) }
 
 // Unsupported ends the path as inconclusive: the harness met something its
 // oracle does not model. It is reported, never counted as a violation.
 func Unsupported(msg string) { UnsupportedMsgs = append(UnsupportedMsgs, msg) }
 
 var UnsupportedMsgs []string
+
 func Reach(tag string) { Reached[tag] = true }
 func Note(msg string)  {}
 
